@@ -10,10 +10,20 @@ import ast
 
 from .. import astutil as A
 from ..fa import FA
-from .cache_model import CacheModel, self_attr, CACHE_CLASS
+from ..loader import AnalysisError
+from .cache_model import CacheModel, self_attr, assign_pairs, CACHE_CLASS, safe_expand
 
 RL = "runner_local"
 FORBIDDEN_UNDER_LEAF_LOCK = ("_mutex_for_invocation", "memento_run_local", "memento_run_batch", "_filter_call", "batch_run")
+
+
+def _xs(fa: FA, e, at) -> str:
+    """name-independent text of `e` evaluated at `at` (plain text where the code is unreachable on the explicit-edge CFG)"""
+    ids = fa.nodes(at)
+    try:
+        return fa.xnorm(e, ids[0]) if ids else A.norm(e)
+    except AnalysisError:
+        return A.norm(e)
 
 
 def _with_blocks(fa: FA, pred):
@@ -21,8 +31,9 @@ def _with_blocks(fa: FA, pred):
 
 
 def _lock_decorators(ck, module):
-    """Module-level decorators whose wrapper is `with self.<lock>: return method(self, ...)`
-    on every path.  -> {decorator name: lock field}"""
+    """Module-level decorators whose wrapper calls the decorated method only inside `with self.<lock>:` (the lock named
+    directly or through a local), whatever else the wrapper does with the result (return it from inside the block, or
+    keep it in a variable and return it after the block).  -> {decorator name: lock field}"""
     out = {}
     for name, fi in module.functions.items():
         if len(fi.params) != 1:
@@ -32,15 +43,43 @@ def _lock_decorators(ck, module):
         rets = [n for n in top if isinstance(n, ast.Return)]
         if len(inner) != 1 or len(rets) != 1 or A.norm(rets[0].value) != inner[0].name:
             continue
-        w = inner[0]
-        body = A.sig_stmts(w.body)
-        if len(body) == 1 and isinstance(body[0], ast.With) and len(body[0].items) == 1:
-            lk = self_attr(body[0].items[0].context_expr)
-            wb = A.sig_stmts(body[0].body)
-            if lk and len(wb) == 1 and isinstance(wb[0], ast.Return) and isinstance(wb[0].value, ast.Call) \
-                    and A.norm(wb[0].value.func) == fi.params[0] and wb[0].value.args and A.norm(wb[0].value.args[0]) == "self":
-                out[name] = lk
+        wfi = fi.nested.get(inner[0].name)
+        if wfi is None or not wfi.params:
+            continue
+        w = FA(ck, wfi)
+        me = wfi.params[0]
+        calls = [c for c in w.calls() if isinstance(c.func, ast.Name) and c.func.id == fi.params[0] and c.args and A.norm(c.args[0]) == me]
+        if not calls:
+            continue
+        locks = set()
+        ok = True
+        for c in calls:
+            held = None
+            x = c
+            while x is not None:
+                x = w.pm.get(x)
+                if isinstance(x, ast.With):
+                    for it in x.items:
+                        e = safe_expand(w, it.context_expr, x)
+                        if isinstance(e, ast.Attribute) and isinstance(e.value, ast.Name) and e.value.id == me:
+                            held = e.attr
+                if held:
+                    break
+            if held is None:
+                ok = False
+            else:
+                locks.add(held)
+        # the wrapper hands the method's result on
+        hands_on = any(r.value is not None and any(isinstance(v_, ast.Call) and isinstance(v_.func, ast.Name) and v_.func.id == fi.params[0]
+                                                   for (v_, _at) in _sources(w, r)) for r in w.returns())
+        if ok and len(locks) == 1 and hands_on:
+            out[name] = next(iter(locks))
     return out
+
+
+def _sources(fa, r):
+    from .cache_model import value_sources
+    return value_sources(fa, r)
 
 
 def _mutex_holding_context_managers(ck, module):
@@ -313,17 +352,32 @@ def check(ck):
     helper_exists = ck.repo.try_func(RL + "._mutex_for_invocation") is not None
     if helper_exists:
         mi = FA(ck, RL + "._mutex_for_invocation")
-        r = mi.one(mi.returns(), "return")
-        okk = isinstance(r.value, ast.Subscript) and A.norm(r.value.value) == table and isinstance(r.value.slice, ast.Tuple) \
-            and [A.norm(e) for e in r.value.slice.elts] == ["fn_reference_with_args.fn_reference.qualified_name", "fn_reference_with_args.arg_hash"]
-        if not okk and not isinstance(r.value, ast.Subscript):
-            # get-or-create spelled out: the looked-up key is the pair, and the returned mutex comes out of the table
-            keys = {mi.xnorm(t.slice) for st in mi.stmts(ast.Assign) for t in st.targets if isinstance(t, ast.Subscript) and A.norm(t.value) == table}
-            keys |= {mi.xnorm(c.args[0]) for c in mi.calls() if A.call_attr(c) in ("get", "setdefault") and A.norm(A.call_recv(c)) == table and c.args}
-            okk = keys == {"(fn_reference_with_args.fn_reference.qualified_name, fn_reference_with_args.arg_hash)"} and \
-                ("global:" + table in mi.deps(r.value) or "call:get" in mi.deps(r.value) or "call:setdefault" in mi.deps(r.value))
-        ck.ob(R2, mi.key(r, "mutex-key"), okk, "one mutex per (versioned function name, argument hash)" if okk else
-              "the per-call mutex is not keyed by (qualified_name, arg_hash) of the invocation: distinct calls serialise or equal calls do not", mi.where(r))
+        ck.need(mi.fi.params, "_mutex_for_invocation takes no invocation argument")
+        inv0 = mi.fi.params[0]
+        want = [inv0 + ".fn_reference.qualified_name", inv0 + ".arg_hash"]
+        rets = mi.some([r for r in mi.returns() if r.value is not None], "return with a value")
+
+        def _key_elts(k, at):
+            """texts of the elements of a looked-up key, locals expanded"""
+            ids = mi.nodes(at)
+            k = mi.expand(k, ids[0]) if ids else k
+            return [A.norm(e) for e in k.elts] if isinstance(k, ast.Tuple) else [A.norm(k)]
+
+        for r in rets:
+            # what is returned, through any temporaries: TABLE[(qualified name, arg hash)]
+            v = safe_expand(mi, r.value, r)
+            if isinstance(v, ast.Subscript) and A.norm(v.value) == table:
+                okk = [A.norm(e) for e in (v.slice.elts if isinstance(v.slice, ast.Tuple) else [v.slice])] == want
+            else:
+                # get-or-create spelled out: every key the table is looked up / filled with is the pair, and the returned mutex comes out of the table
+                keys = [_key_elts(t.slice, st) for st in mi.stmts(ast.Assign) for t in st.targets if isinstance(t, ast.Subscript) and A.norm(t.value) == table]
+                keys += [_key_elts(c.args[0], c) for c in mi.calls() if A.call_attr(c) in ("get", "setdefault") and A.norm(A.call_recv(c)) == table and c.args]
+                keys += [_key_elts(x.slice, x) for x in A.walk_body(mi.node) if isinstance(x, ast.Subscript) and isinstance(x.ctx, ast.Load) and A.norm(x.value) == table]
+                dv = mi.deps(r.value) if mi.nodes(r) else set()
+                okk = bool(keys) and all(k == want for k in keys) and \
+                    ("global:" + table in dv or "call:get" in dv or "call:setdefault" in dv)
+            ck.ob(R2, mi.key(r, "mutex-key"), okk, "one mutex per (versioned function name, argument hash)" if okk else
+                  "the per-call mutex is not keyed by (qualified_name, arg_hash) of the invocation: distinct calls serialise or equal calls do not", mi.where(r))
     else:
         from .keys import _mutex_key_in_host
         _mutex_key_in_host(ck, R2)
@@ -334,14 +388,14 @@ def check(ck):
     def holds_own_mutex(e):
         if isinstance(e, ast.Name) and rl.nodes(e):
             # `m = _mutex_for_invocation(x)` ... `with m:`
-            x0 = rl.expand(e)
+            x0 = safe_expand(rl, e)
             if not isinstance(x0, ast.Name):
                 return holds_own_mutex(x0)
         if isinstance(e, ast.Call) and A.call_attr(e) in holders and [A.norm(a) for a in e.args] == [inv]:
             return True
         if not helper_exists:
             # `m = TABLE[(qualified name, arg hash)]` under the table lock, then `with m:`
-            x = rl.expand(e) if rl.nodes(e) else e
+            x = safe_expand(rl, e)
             if isinstance(x, ast.Subscript) and isinstance(x.value, ast.Name) and x.value.id == table:
                 return True
             if isinstance(x, ast.Call) and A.call_attr(x) in ("get", "setdefault") and isinstance(A.call_recv(x), ast.Name) and A.call_recv(x).id == table:
@@ -399,7 +453,9 @@ def check(ck):
     for (fi, c, _) in ctor_sites:
         fa = FA(ck, fi)
         st = fa.stmt_of(c)
-        ok = fi.qual == "call_stack.CallStack.get" and isinstance(st, ast.Assign) and tl and all(A.dotted(t) == tl[0] + ".call_stack" for t in st.targets)
+        # the new stack is bound to an attribute of the thread-local object (named directly or through a local alias)
+        ok = fi.qual == "call_stack.CallStack.get" and isinstance(st, ast.Assign) and tl and st.value is c and \
+            all(isinstance(t, ast.Attribute) and t.attr == "call_stack" and _xs(fa, t.value, st) == tl[0] for t in st.targets)
         ck.ob(R5, fa.key(c, "created-into-thread-local"), bool(ok), "a new CallStack goes straight into thread-local storage" if ok else
               "a CallStack is created outside CallStack.get / not stored in thread-local storage", fa.where(c))
     shared = []
@@ -418,11 +474,12 @@ def check(ck):
           "a call stack / frame container is shared across threads: %s" % (shared[0],), shared[0][0] if shared else cs.relpath)
     g = FA(ck, "call_stack.CallStack.get")
     rets = g.returns()
-    okg = bool(rets) and tl and all(A.norm(r.value) == tl[0] + ".call_stack" for r in rets)
+    okg = bool(rets) and tl and all(r.value is not None and _xs(g, r.value, r) == tl[0] + ".call_stack" for r in rets)
     ck.ob(R5, g.key(None, "get-returns-thread-local"), bool(okg), "CallStack.get returns the calling thread's stack" if okg else
           "CallStack.get does not return the thread-local stack", g.where())
     ini = FA(ck, "call_stack.CallStack.__init__")
-    okf = any(isinstance(s, ast.Assign) and A.dotted(s.targets[0]) == "self._frames" and isinstance(s.value, ast.List) and not s.value.elts for s in ini.stmts(ast.Assign))
+    okf = any(A.dotted(t) == "self._frames" and ((isinstance(v, ast.List) and not v.elts) or (isinstance(v, ast.Call) and A.norm(v) == "list()"))
+              for s in ini.stmts((ast.Assign, ast.AnnAssign)) for (t, v) in assign_pairs(s))
     ck.ob(R5, ini.key(None, "own-frame-list"), okf, "each CallStack owns a fresh frame list" if okf else
           "CallStack instances do not start with their own fresh frame list", ini.where())
     # ---- R6: readers that run outside the per-call mutex (the batch pre-check) never observe a
